@@ -1,6 +1,7 @@
 /-
 C06 — dangling parameter/service references are detected, exactly.
 -/
+import GontainerModel.Lemmas.C06Aux
 import GontainerModel.Model.Compile
 import GontainerModel.Generated.Wiring
 namespace GM.C06
@@ -21,12 +22,6 @@ def serviceRefs (o : Output) : List (String × String) :=
 
 def declaredParams (o : Output) : List String := o.params.map (·.name)
 def declaredServices (o : Output) : List String := o.services.map (·.name)
-
-theorem pfx_nil_iff (p : String) (e : Errs) : Errs.pfx p e = [] ↔ e = [] := by
-  simp [Errs.pfx]
-
-theorem missing_nil_iff (decl deps : List String) : missing decl deps = [] ↔ ∀ n ∈ deps, n ∈ decl := by
-  simp [missing, List.filter_eq_nil_iff]
 
 /-- **Exactness (parameters).** The validator accepts iff every referenced parameter — from a
 parameter, a service (arguments, fields, calls) or a decorator — is declared. -/
